@@ -9,11 +9,12 @@ arguments as parameters, expansion ends):
 * no label is defined twice (`firstDuplicate … = none`);
 * every label and expression macro an operand mentions is defined
   (`mentioned` succeeds and nothing is `missing`);
-* under the final layout every operand evaluates — every parameter an expression
-  macro's body READS has an argument (else `undefinedVariable`; a missing argument
-  for a parameter that is never read is accepted, against the property's "at least
-  as many arguments": finding D28, `C13_missing_argument_counterexample`), no division
-  by zero — to a value that fits its push (`finish` succeeds).
+* under the final layout every operand evaluates — every expression-macro
+  invocation supplies at least as many arguments as the macro has parameters (else
+  `undefinedVariable` naming the first parameter left without argument, whether or
+  not the body reads it: `C13_missing_argument_rejected`; surplus arguments are
+  ignored), every `$variable` read is a parameter of the macro whose body reads it,
+  no division by zero — to a value that fits its push (`finish` succeeds).
 `C13_iff` (T-asm): the implementation model — feeding items one at a time with
 provisional label positions, the undeclared-label set, feed-time and
 emission-time checks, deferral of label-dependent range errors — returns bytes
@@ -152,8 +153,8 @@ theorem C13_error_undeclared_expression_macro (rnd : Nat → Nat) (fuel k : Nat)
   undeclaredExpressionMacro_provenance rnd fuel k ops n h
 
 /-- `MacroArgumentCount n`: `n` is an INSTRUCTION macro declared in the scope that reports it (expression macros never
-yield this error: too few arguments surface as `UndeclaredVariableMacro` when the missing parameter is read — and not at
-all when it is not: finding D28 —, surplus ones are ignored) -/
+yield this error: too few arguments are always an error, but of the kind `UndeclaredVariableMacro`, naming the first
+parameter left without argument — `C13_missing_argument_rejected` —, surplus ones are ignored) -/
 theorem C13_error_argument_count (rnd : Nat → Nat) (fuel k : Nat) (ops : RawOps) (n : String)
     (h : assemble rnd fuel { fresh := k } ops = .error (.macroArgumentCount n)) :
     ∃ (sub : RawOps) (ms : List (String × MacroDef)) (ps : List String) (body : List AOp),
@@ -173,8 +174,9 @@ theorem C13_error_recursion_limit (rnd : Nat → Nat) (fuel k : Nat) (ops : RawO
 
 The provenance theorems above name SOME scope; an unrelated scope could satisfy them (audit 3).  In the following the
 same scope `sub` — the program or a nested `%include` scope — both contains the use (in a statement, an invocation
-argument or the body of one of its macro definitions: `AOp.callsMacro`, `AOp.invokesWith`, `AOp.mentionsVar`) and
-lacks / has the definition. -/
+argument or the body of one of its macro definitions: `AOp.callsMacro`, `AOp.invokesWith`, `AOp.mentionsVar`; for a
+parameter left without argument, the definition that declares it: `AOp.declaresParam`) and lacks / has the
+definition. -/
 
 /-- `UndeclaredExpressionMacro n`: some scope calls `n(…)` and declares no expression macro `n` -/
 theorem C13_error_undeclared_expression_macro_use (rnd : Nat → Nat) (fuel k : Nat) (ops : RawOps) (n : String)
@@ -205,17 +207,23 @@ theorem C13_error_argument_count_use (rnd : Nat → Nat) (fuel k : Nat) (ops : R
   macroArgumentCount_use rnd fuel k ops n h
 
 /-- `UndeclaredVariableMacro v`: `$v` occurs literally in the text of some scope (operand, invocation argument, or the
-body of one of its macro definitions) -/
+body of one of its macro definitions), or `v` is a parameter of an expression-macro definition statement of some scope
+(an invocation with too few arguments names the first parameter left without argument, read or not) -/
 theorem C13_error_undeclared_variable (rnd : Nat → Nat) (fuel k : Nat) (ops : RawOps) (v : String)
     (h : assemble rnd fuel { fresh := k } ops = .error (.undeclaredVariableMacro v)) :
-    ∃ (sub : RawOps) (o : AOp), SubScope sub ops ∧ RawOp.op o ∈ sub.toList ∧ o.mentionsVar v = true :=
+    ∃ (sub : RawOps) (o : AOp), SubScope sub ops ∧ RawOp.op o ∈ sub.toList ∧
+      (o.mentionsVar v = true ∨ o.declaresParam v = true) :=
   undeclaredVariable_provenance rnd fuel k ops v h
 
-/-! ### Finding D28: too few arguments for an expression macro are accepted when the missing parameter is never read
+/-! ### Finding D28 (repaired): too few arguments for an expression macro are an error even when the missing parameter
+is never read
 
-The property counts an expression-macro invocation with fewer arguments than parameters as ill formed.  etk binds the
-parameters to the arguments pairwise (`zip`) and only notices a missing one when the body reads it
-(`UndeclaredVariableMacro`).  The model follows the code: `%def f(x, y) $x %end; push1 f(1)` assembles to `60 01`. -/
+The property counts an expression-macro invocation with fewer arguments than parameters as ill formed.  etk used to
+bind the parameters to the arguments pairwise (`zip`) and only noticed a missing one when the body read it, so
+`%def f(x, y) $x %end; push1 f(1)` assembled to `60 01` (finding D28).  The defect was repaired (`fix:` 841db2a): a
+parameter left without argument is now `UndeclaredVariableMacro` naming the first such parameter, whether or not the
+body reads it.  The model follows the repaired code (`evalArgs`), and the theorem below records the repaired
+behaviour on the former counterexample. -/
 
 def d28Program : RawOps := RawOps.ofList
   [.op (.exprDef "f" ["x", "y"] (.var "x")), .op (.op 0x60 (some (.macro "f" (.cons (.num 1) .nil))))]
@@ -223,8 +231,20 @@ def d28Program : RawOps := RawOps.ofList
 def assemblesTo (r : Except AsmErr (List Nat × Nat)) (bs : List Nat) : Bool :=
   match r with | .ok (b, _) => b == bs | .error _ => false
 
-/-- the model (like the real assembler: corpus/C13/d28-missing-unused-argument.json) accepts the ill-formed program -/
-theorem C13_missing_argument_counterexample :
-    assemblesTo (assemble (fun k => k) 50 { fresh := 0 } d28Program) [0x60, 1] = true := by decide +kernel
+/-- the result is exactly the error `e` -/
+def failsWith (r : Except AsmErr (List Nat × Nat)) (e : AsmErr) : Bool :=
+  match r with | .ok _ => false | .error e' => decide (e' = e)
+
+theorem failsWith_iff (r : Except AsmErr (List Nat × Nat)) (e : AsmErr) : failsWith r e = true ↔ r = .error e := by
+  cases r with
+  | ok x => simp [failsWith]
+  | error e' => simp [failsWith]
+
+/-- the model, following the repaired assembler, rejects the ill-formed program (that of
+corpus/C13/d28-missing-unused-argument.json),
+naming the parameter `y` that `f(1)` leaves without argument — although the body `$x` never reads it -/
+theorem C13_missing_argument_rejected :
+    assemble (fun k => k) 50 { fresh := 0 } d28Program = .error (.undeclaredVariableMacro "y") :=
+  (failsWith_iff _ _).1 (by decide +kernel)
 
 end EtkVerif.C13
